@@ -1117,6 +1117,17 @@ class _CallMixin:
             if self.writelog is not None:
                 self.writelog.add(("list", ref.oid))
             return NONE
+        if name in ("sort", "reverse") and g == TRUE and not args and (not self.loop_ctx or self.loop_born_inside(o, self.loop_ctx[-1])):
+            # in-place sort / reverse of the whole list: the list now holds sorted(<its previous contents>)
+            src = self.alloc(ListObj(o.born, list(o.items), o.typ))
+            kv = [Op("kv", Const(k), v) for k, v in sorted(kwargs.items())]
+            o.items[:] = [("v", Op("splat", Op("sorted" if name == "sort" else "reversed", src, *kv)), TRUE)]
+            self.event("listmut", (ref, name, tuple(args), tuple(sorted(kwargs.items()))), node)
+            if name == "sort":
+                self.event("sorted", (src, tuple(sorted(kwargs.items()))), node)
+            if self.writelog is not None:
+                self.writelog.add(("list", ref.oid))
+            return NONE
         if name in ("sort", "reverse", "insert", "pop", "remove", "clear"):
             o.items.append(("v", Op("listmut:" + name, *args, *[Op("kv", Const(k), v) for k, v in sorted(kwargs.items())]), g))
             self.event("listmut", (ref, name, tuple(args), tuple(sorted(kwargs.items()))), node)
